@@ -532,12 +532,16 @@ func replay(ctx *common.Ctx, d string, ops []op) (*failure, []op, error) {
 }
 
 // shrink drops ops (greedily, from the end) as long as the history still fails at its last op.
+// shrinkBudget bounds the replays of one run (a tree with many defects fails in almost every history)
+var shrinkBudget = 200
+
 func shrink(ctx *common.Ctx, d string, ops []op) []op {
 	cur := append([]op{}, ops...)
 	budget := 40
-	for i := len(cur) - 2; i >= 0 && budget > 0; i-- {
+	for i := len(cur) - 2; i >= 0 && budget > 0 && shrinkBudget > 0; i-- {
 		cand := append(append([]op{}, cur[:i]...), cur[i+1:]...)
 		budget--
+		shrinkBudget--
 		f, ran, err := replay(ctx, d, cand)
 		if err != nil || f == nil || f.step != len(ran)-1 || len(ran) != len(cand) {
 			continue
